@@ -67,11 +67,12 @@ def direct_case(draw):
     n = draw(st.integers(1, max(1, min(5, pk))))
     p = draw(st.integers(0, min(n, 2)))
     useH = draw(st.booleans())
+    Hjunk = draw(st.sampled_from([0.0, 0.0, 1.0, 7.5, -33.0]))       # 1.0: zero upper triangle
     case = dict(dims=dims, mnl=mnl, n=n, p=p,
                 G=[[draw(dyv) for _ in range(n)] for _ in range(N)],
                 A=[[draw(dyv) for _ in range(n)] for _ in range(p)],
                 spG=draw(st.booleans()), spA=draw(st.booleans()), spH=draw(st.booleans()), spDf=draw(st.booleans()),
-                useH=useH,
+                useH=useH, Hjunk=Hjunk,
                 steps=[])
     nsteps = draw(st.integers(1, 4))
     for _ in range(nsteps):
@@ -156,7 +157,17 @@ def direct_oracle(case, stats=None):
         for si, (stp, (Wn, Wc, Df, H, GG)) in enumerate(zip(case["steps"], steps)):
             Wcc = {k: (matrix(v) if isinstance(v, matrix) else ([matrix(t) for t in v] if k in ("v", "r", "rti") else list(v)))
                    for k, v in Wc.items()}
-            Hm = None if H is None else (sparse(mk(H)) if case["spH"] else mk(H))
+            Hm = None
+            if H is not None:
+                # only the lower triangle of H is referenced (coneprog.rst / cvxprog.rst): the strict upper triangle
+                # may hold anything
+                Hj = H.copy()
+                hj = case.get("Hjunk", 0.0)
+                if hj:
+                    for jj in range(n):
+                        for ii in range(jj):
+                            Hj[ii, jj] = hj + ii - 2 * jj if hj != 1.0 else 0.0
+                Hm = sparse(mk(Hj)) if case["spH"] else mk(Hj)
             if mnl:
                 Dfm = mk(Df)
                 if case["spDf"]:
@@ -465,7 +476,108 @@ def insolve_oracle(case, stats=None):
         stats.extra["insolve_solves_checked"] = stats.extra.get("insolve_solves_checked", 0) + state["nsolve"]
 
 
+# ------------------------------------------------------------------ part "restore": W after cpl's restore-and-retry
+
+@st.composite
+def restore_case(draw):
+    """minimize c'x  s.t.  sum_i exp(K a_i'x) <= rhs,  ||x||_2 <= R   (one nonlinear constraint, one 'q' block, optional
+    'l' rows): steep exponentials make cpl's standard line search fail, so that relaxed steps and restores occur"""
+    n = draw(st.integers(2, 3))
+    m = draw(st.integers(1, 2))
+    return dict(n=n, m=m, K=draw(st.sampled_from([5.0, 10.0, 25.0])), A=[[draw(st.integers(-4, 4)) / 4.0 for _ in range(n)] for _ in range(m)],
+                c=[draw(st.integers(-4, 4)) / 2.0 for _ in range(n)], x0=[draw(st.integers(-2, 2)) / 4.0 for _ in range(n)],
+                xscale=draw(st.sampled_from([0.5, 1.0, 2.0])), lrows=draw(st.integers(0, 2)), form=draw(st.sampled_from(["cpl", "cpl", "cp"])))
+
+
+def restore_oracle(case, stats=None):
+    """cpl/cp save the iterate and its scaling before relaxed line searches and go back to them when a step fails.
+    The scaling handed to the KKT solver belongs to the iterate: when the first kktsolver call after a failure receives
+    bit-identical (x, z) as an earlier call of the same solve (the saved iterate), it must receive the same W.
+    A failure (ArithmeticError) is injected into every kktsolver call in turn to provoke the restore path."""
+    from cvxopt import exp as cexp
+    n, m, K = case["n"], case["m"], case["K"]
+    Aa = np.array(case["A"], dtype=float).reshape((m, n))
+    x0 = np.array(case["x0"], dtype=float) * case["xscale"]
+    c = np.array(case["c"], dtype=float)
+    R = 2.0 + float(np.linalg.norm(x0))
+    rhs = float(np.sum(np.exp(K * (Aa @ x0))) + 1.0)
+    l = case["lrows"]
+    G = np.zeros((l + n + 1, n))
+    h = np.zeros(l + n + 1)
+    for i in range(l):
+        G[i, i % n] = 1.0
+        h[i] = abs(x0[i % n]) + 3.0
+    h[l] = R
+    for i in range(n):
+        G[l + 1 + i, i] = -1.0
+    dims = {"l": l, "q": [n + 1], "s": []}
+    Gm, hm = gc.cvx_dense(G), gc.cvx_dense(h)
+    Am = gc.cvx_dense(Aa)
+    cm = gc.cvx_dense(c)
+    cp_form = case["form"] == "cp"
+
+    def F(x=None, z=None):
+        if x is None:
+            return (0 if cp_form else 1), gc.cvx_dense(x0)
+        e = cexp(K * (Am * x))
+        Df = (K * (Am.T * e)).T
+        Hc = K * K * (Am.T * spmatrix(list(e), range(m), range(m)) * Am)
+        if cp_form:
+            # objective c'x + (sum exp - rhs) as a single convex objective, no nonlinear constraints
+            f = (cm.T * x)[0] + sum(e) - rhs
+            Df = cm.T + Df
+        else:
+            f = matrix([sum(e) - rhs])
+        if z is None:
+            return f, Df
+        return f, Df, z[0] * matrix(Hc)
+
+    def run(fail_at):
+        rec = []
+        factor = misc.kkt_ldl(Gm, dims, matrix(0.0, (0, n)), 0 if cp_form else 1)
+
+        def kktsolver(x, z, W):
+            f, Df, H = F(x, z)
+            Wn = rc.W_from_cvxopt(W)
+            flat = np.concatenate([np.ravel(np.asarray(v, dtype=float)) for kk in sorted(Wn)
+                                   for v in (Wn[kk] if isinstance(Wn[kk], list) else [Wn[kk]])]) if Wn else np.zeros(0)
+            rec.append((repr(list(x)), repr(list(z)), flat))
+            if len(rec) - 1 == fail_at:
+                raise ArithmeticError("injected")
+            return factor(W, H, Df) if not cp_form else factor(W, H)
+        try:
+            if cp_form:
+                solvers.cp(F, Gm, hm, dims, kktsolver=kktsolver, options={"show_progress": False})
+            else:
+                solvers.cpl(cm, F, Gm, hm, dims, kktsolver=kktsolver, options={"show_progress": False})
+        except (ValueError, ArithmeticError, ZeroDivisionError, OverflowError):
+            pass
+        return rec
+    base = run(None)
+    restores = 0
+    for k in range(1, min(len(base), 40)):
+        rec = run(k)
+        if len(rec) <= k + 1:
+            continue
+        xk, zk, Wk = rec[k + 1]
+        for j in range(k + 1):
+            if rec[j][0] == xk and rec[j][1] == zk:
+                restores += 1
+                old = rec[j][2]
+                dev = float(np.max(np.abs(old - Wk)) / max(1.0, float(np.max(np.abs(old))))) if old.size else 0.0
+                if dev > 1e-10:
+                    raise Violation("%s, ArithmeticError injected into kktsolver call #%d: the retry starts from the iterate of call #%d "
+                                    "(identical x, z) but receives a scaling W that differs from the one of that call (relative %.2e): "
+                                    "W is not the scaling of the current iterate" % (case["form"], k, j, dev))
+                break
+    if stats is not None:
+        stats.evaluated(case, restores > 0, ["restore", "restores:%d" % min(restores, 5), "form:" + case["form"]])
+
+
 def search(ctx, stats):
+    if ctx.part == "restore":
+        v = run_given(restore_case(), lambda c: restore_oracle(c, stats), ctx.seed, ctx.n(250, 6000), stats)
+        return [v] if v else []
     part = ctx.part
     if part == "direct":
         v = run_given(direct_case(), lambda c: direct_oracle(c, stats), ctx.seed, ctx.n(6000, 120000), stats)
@@ -478,7 +590,7 @@ def search(ctx, stats):
 
 def replay(case, part):
     try:
-        {"direct": direct_oracle, "scaling": scaling_oracle, "insolve": insolve_oracle}[part](case)
+        {"direct": direct_oracle, "scaling": scaling_oracle, "insolve": insolve_oracle, "restore": restore_oracle}[part](case)
     except Violation as v:
         return v.msg
     return None
